@@ -41,12 +41,16 @@ func (e *verifFlipEnv) observed() string {
 
 const verifFlipProgram = `BEGIN { l = ""; r = 0; printf "%c|", "\303\244z"; printf "%c|", 228; print ENVIRON["K"]; r = (getline l < "G"); print r, l; print "w" v > "H"; close("H"); printf "%d", 1 }
 { print "rec", $0, NF }
+/^a/, /^never/ { print "range", NR }
 END { print NR }`
 
 // setting k of run number run (0 or 1); dim is the one dimension in which the two runs differ, flip its direction
+// verifFlipDim2 is a second dimension flipped together with the first (thorough tier; -1 = none)
+var verifFlipDim2 = -1
+
 func verifFlipConfig(dim int, flip bool, run int, stdin []byte) (*Config, *verifFlipEnv) {
 	second := (run == 1) != flip // whether this run takes the "B" value of the flipped dimension
-	on := func(d int) bool { return d == dim && second }
+	on := func(d int) bool { return (d == dim || d == verifFlipDim2) && second }
 	env := &verifFlipEnv{out: &bytes.Buffer{}}
 	cfg := &Config{Stdin: bytes.NewReader(stdin), Output: env.out, Error: &bytes.Buffer{}, Environ: []string{"K", "k0"}, Vars: []string{"v", "0"}}
 	cfg.Chars = on(0)
@@ -79,9 +83,13 @@ func verifFlipConfig(dim int, flip bool, run int, stdin []byte) (*Config, *verif
 
 func VerifC14ConfigFlip() {
 	dim := verifIntRange(0, 9)
+	verifFlipDim2 = -1
+	if verifBound(0, 1) == 1 {
+		verifFlipDim2 = verifIntRange(dim, 9) // thorough: every pair of settings (dim itself = only one)
+	}
 	flip := verifIntRange(0, 1) == 1
 	in1 := []byte("a b\nc,d\n")
-	in2 := append(verifBytes(verifIntRange(1, 2)), '\n')
+	in2 := append(verifBytes(verifIntRange(1, verifBound(2, 3))), '\n')
 	for _, b := range in2 {
 		verifAssume(b != '"' && b != '\r' && b != 0xEF)
 	}
